@@ -4,7 +4,7 @@ from .verdict import Verdict
 
 CLAUSES = {
     'C02': {'Construct', 'Evaluable', 'Denotation', 'SpecialTableOK', 'NamesIds', 'NoInputWrite', 'Posterior'},
-    'C03': {'EvaluableS1', 'GradSlotOK', 'HistoryFree', 'PosteriorGrad'},
+    'C03': {'EvaluableS1', 'GradSlotOK', 'HistoryFree', 'PosteriorGrad', 'FiniteAgree'},
     'C17': {'Agree', 'UniqueDefault', 'NamesIds', 'Construct'},
 }
 ASSUME = [
